@@ -1,5 +1,6 @@
 import CbiVerif.Lemmas.Exclude
 import CbiVerif.Lemmas.ExpandPP
+import CbiVerif.Props.C08Engines
 /-! # C10 — excluding files removes their lines from the counts and changes nothing else
 
 Model: `CbiVerif/Model/Exclude.lean` (`find` with an explicit tree cache and language class per file,
